@@ -4,7 +4,7 @@
    gives an online, append-only assembler).  Proved for the id-reuse / classification / visibility logic
    of FromPcap (Import.dump, Import.classify, reader stack); the extension property itself is proved for
    no assembler here (UDP: one flow alone, see C05) and is what the correspondence runs check. *)
-From Pk Require Import Import ImportProofs ImportExamples ImportSnapshot ImportSnapshotUdp ImportRestart ImportBatchUdp BuilderOrder Udp UdpInterleave UdpReplay.
+From Pk Require Import Import ImportProofs ImportExamples ImportSnapshot ImportSnapshotUdp ImportRestart ImportBatchUdp BuilderOrder Udp UdpInterleave UdpReplay UdpSnapshotValid.
 From Pk Require Import ImportIndex.
 Require Pk.IndexFormat Pk.IndexFormatWriter Pk.IndexFormatPackets Pk.IndexFormatLookup.
 From Coq Require Import Sorting.Permutation.
@@ -148,6 +148,41 @@ Theorem C08_snapshot_transparency_udp : forall hashf thr ff (b : builder) (st : 
   import_view (import hashf thr ff b st nf stack) =
   import_view (import hashf thr ff (mkBuilder (b_known b) []) st nf stack).
 Proof. exact snapshot_transparency_udp. Qed.
+
+(* (1e) the snapshots the Builder really makes are valid.  [snap_at T pre] = the snapshot the packet loop records at time T
+   on the history pre (Import.referenced on the flushed state): CANONICAL.  Canonical snapshots are [valid_udp] for every
+   later feed pre ++ rest that agrees with their history; the loop of an import that starts without a snapshot creates
+   canonical snapshots; and so does the loop of an import that itself replays from a canonical snapshot (what it
+   references, computed on the kept run, is what the full history references) -- so the Builder's snapshots stay canonical
+   from import to import, for every hash function and every snapshot interval >= 1. *)
+Theorem C08_canonical_snapshot_valid : forall T pre rest nf,
+  Forall (fun p => p_ts p < T) pre -> Forall (fun p => T <= p_ts p) rest ->
+  NoDup (map packet_key (pre ++ rest)) -> Forall (fun p => mem_file (p_file p) nf = false) pre ->
+  Forall (fun p => p_tcp p = false) (pre ++ rest) -> tsorted 0 (pre ++ rest) ->
+  valid_udp (snap_at T pre) nf (pre ++ rest).
+Proof. exact canonical_snapshot_valid. Qed.
+
+Theorem C08_created_snapshots_valid : forall hashf thr, 1 <= thr -> forall fed s,
+  Forall (fun p => p_tcp p = false) fed -> tsorted 0 fed ->
+  In s (l_snaps (fold_left (loop_step hashf thr None) fed (mkLoop asm0 0 None []))) ->
+  exists pre q post, fed = pre ++ q :: post /\ sn_ts s = p_ts q /\
+    forall rest nf,
+      Forall (fun p => sn_ts s <= p_ts p) rest -> Forall (fun p => p_tcp p = false) rest ->
+      NoDup (map packet_key (pre ++ rest)) -> Forall (fun p => mem_file (p_file p) nf = false) pre ->
+      tsorted 0 (pre ++ rest) ->
+      valid_udp s nf (pre ++ rest).
+Proof. exact created_snapshot_valid. Qed.
+
+Theorem C08_next_generation_snapshots : forall hashf thr, 1 <= thr -> forall T0 pre0 rest0 nf kept s,
+  Forall (fun p => p_ts p < T0) pre0 -> Forall (fun p => T0 <= p_ts p) rest0 ->
+  NoDup (map packet_key (pre0 ++ rest0)) -> Forall (fun p => mem_file (p_file p) nf = false) pre0 ->
+  tsorted 0 (pre0 ++ rest0) -> Forall (fun p => p_tcp p = false) (pre0 ++ rest0) ->
+  In s (l_snaps (fold_left (loop_step hashf thr (Some T0))
+                           (filter (keepb (snap_at T0 pre0)) (pre0 ++ rest0)) (mkLoop asm0 0 None kept))) ->
+  In s kept \/
+  exists mid q post, rest0 = mid ++ q :: post /\ Forall (fun p => p_ts p < p_ts q) (pre0 ++ mid) /\
+                     s = snap_at (p_ts q) (pre0 ++ mid).
+Proof. exact next_generation_snapshots. Qed.
 
 Example C08_valid_udp_instance : valid_udp snap0 [1] F0.
 Proof. exact valid_udp_instance. Qed.
